@@ -1,6 +1,6 @@
 (* Properties_C13.v — ONLY the property theorems for C13 (cmap lookup, direct and cached).
    Model: Model/CmapModel.v, hand-written after src/TtfUtil.cpp (cmap functions) and src/CmapCache.cpp. *)
-From GR Require Import Base.Bytes Model.CmapModel Proofs.CmapCache Proofs.CmapSafe.
+From GR Require Import Base.Bytes Base.MemFacts Model.CmapModel Proofs.CmapCache Proofs.CmapSafe.
 Local Open Scope N_scope.
 
 (* The cache fill loop terminates within its fuel for ANY iteration / lookup functions (hence for any table bytes):
